@@ -40,7 +40,7 @@ fn profile(prop: &str) -> Profile {
 }
 
 fn needs_name(k: &str) -> bool {
-    matches!(k, "G" | "IG" | "EG" | "EIG" | "L" | "V" | "U")
+    matches!(k, "G" | "IG" | "EG" | "EIG" | "L" | "V" | "U" | "W" | "VR")
 }
 
 pub fn random_body(prop: &str, rng: &mut Rng) -> Vec<Item> {
@@ -180,6 +180,19 @@ fn event_filter(prop: &str, ev: &str) -> bool {
 /// One recorded run: input line, hook events, outcome line.
 pub fn record_one(prop: &str, seed: u64, i: usize) -> Vec<String> {
     let mut rng = Rng::new(seed, i as u64);
+    // every third run comes from the generators of the dimension audit (their own random stream, so that
+    // the other runs are the ones of the first build round)
+    if i % 15 == 14 && prop != "C06" {
+        // a tower: blocks nested 5..11 deep, jumps and uses at the bottom, their targets on every level on the way out
+        let mut trng = Rng::new(seed ^ 0x70E4, i as u64);
+        let items = tower_body(prop, &mut trng);
+        return record_case(prop, i, items, Vec::new(), Vec::new(), flat::Layout::default());
+    }
+    if i % 3 == 2 {
+        let mut arng = Rng::new(seed ^ 0xA0D17, i as u64);
+        let (items, consts, params, lay) = audit_case(prop, &mut arng);
+        return record_case(prop, i, items, consts, params, lay);
+    }
     let (items, consts, params) = match prop {
         "C05" => {
             let items = if rng.chance(70) { label_valid_body(&mut rng) } else { random_body(prop, &mut rng) };
@@ -196,8 +209,14 @@ pub fn record_one(prop: &str, seed: u64, i: usize) -> Vec<String> {
         "C06" => (crate::flatgen::random_tree_body(&mut rng), vec![], vec![]),
         _ => (random_body(prop, &mut rng), vec![], vec![]),
     };
+    record_case(prop, i, items, consts, params, flat::Layout::default())
+}
+
+/// Render, parse, project, run with the hooks on and log: input line, hook events, outcome line.
+fn record_case(prop: &str, i: usize, items: Vec<Item>, consts: Vec<String>, params: Vec<String>, mut lay: flat::Layout) -> Vec<String> {
     let decoy: Vec<String> = if prop == "C04" { NAMES.iter().map(|x| x.to_string()).collect() } else { Vec::new() };
-    let r = flat::render_with_decoy(&items, &consts, &params, &decoy);
+    lay.decoy = decoy.clone();
+    let r = flat::render_layout(&items, &consts, &params, &lay);
     // what the real parser saw
     let decls = alpha::parse(&r.source, "case.pn");
     let proj = flat::project(&r.source, &decls);
@@ -313,4 +332,230 @@ pub fn normalise(items: Vec<Item>) -> Vec<Item> {
         }
     }
     out
+}
+
+// ---------------------------------------------------------------------------
+// Dimension audit (docs/notes-flat.md): modules with several functions, result expressions and
+// `goto return`, deeper nesting, longer bodies, else-chains and further use contexts for C05, call and
+// declaration statements for C06, layouts (comments, no final newline, constants after the functions,
+// labels named like the variable / the function).
+// ---------------------------------------------------------------------------
+fn audit_profile(prop: &str, deep: bool) -> Profile {
+    match prop {
+        "C04" => Profile {
+            kinds: vec![("O", 8), ("IO", 6), ("EO", 8), ("EIO", 5), ("C", 16), ("G", 10), ("IG", 14),
+                        ("EG", 6), ("EIG", 5), ("L", 22), ("S", 3), ("V", 2)],
+            names: 4,
+            max_len: if deep { 30 } else { 56 },
+            max_depth: if deep { 9 } else { 5 },
+            loops: true,
+        },
+        _ => Profile {
+            kinds: vec![("O", 8), ("IO", 5), ("EO", 4), ("EIO", 3), ("C", 14), ("G", 4), ("IG", 12), ("EG", 3),
+                        ("EIG", 3), ("L", 12), ("V", 16), ("U", 14), ("W", 5), ("VR", 2), ("S", 2)],
+            names: 3,
+            max_len: if deep { 24 } else { 48 },
+            max_depth: if deep { 8 } else { 4 },
+            loops: true,
+        },
+    }
+}
+
+fn body_from(p: &Profile, len: usize, rng: &mut Rng, goto_return: bool) -> Vec<Item> {
+    let mut items: Vec<Item> = Vec::new();
+    let mut opens: Vec<&'static str> = Vec::new();
+    let mut last_if = false;
+    // deep profiles open blocks more often than they close them
+    let deep = p.max_depth > 5;
+    let weights: Vec<usize> = p
+        .kinds
+        .iter()
+        .map(|x| if deep && matches!(x.0, "O" | "IO") { x.1 * 2 } else if deep && x.0 == "C" { x.1 / 2 } else { x.1 })
+        .collect();
+    while items.len() + opens.len() < len {
+        let (k, _) = p.kinds[rng.weighted(&weights)];
+        let is_else = matches!(k, "EO" | "EIO" | "EG" | "EIG");
+        if is_else && !last_if {
+            continue;
+        }
+        match k {
+            "O" | "IO" | "EO" | "EIO" => {
+                if opens.len() >= p.max_depth {
+                    continue;
+                }
+                opens.push(k);
+                last_if = false;
+                items.push(Item::new(k, ""));
+            }
+            "C" => {
+                let Some(o) = opens.pop() else { continue };
+                if p.loops && rng.chance(20) {
+                    items.push(Item::new("LP", ""));
+                }
+                last_if = matches!(o, "IO" | "EIO");
+                items.push(Item::new("C", ""));
+            }
+            "V" if p.names == 4 => {
+                // C04: declarations are noise, with names of their own
+                last_if = false;
+                items.push(Item::new("V", &format!("n{}", items.len())));
+            }
+            k => {
+                let mut name = if needs_name(k) { NAMES[rng.below(p.names)] } else { "" };
+                if goto_return && matches!(k, "G" | "IG" | "EG" | "EIG") && rng.chance(20) {
+                    name = "return";
+                }
+                last_if = matches!(k, "IG" | "EIG");
+                items.push(Item::new(k, name));
+            }
+        }
+    }
+    while opens.pop().is_some() {
+        items.push(Item::new("C", ""));
+    }
+    items
+}
+
+/// C06: statement trees that also hold call and declaration statements, nested deeper.
+fn audit_tree_stmt(rng: &mut Rng, depth: usize, max_depth: usize, budget: &mut usize, out: &mut Vec<Item>, uniq: &mut usize) {
+    if *budget == 0 {
+        out.push(Item::new("S", ""));
+        return;
+    }
+    *budget -= 1;
+    let w: Vec<usize> = if depth >= max_depth { vec![8, 8, 8, 5, 0, 0, 5, 5] } else { vec![6, 7, 9, 4, 9, 13, 4, 4] };
+    *uniq += 1;
+    match rng.weighted(&w) {
+        0 => out.push(Item::new("S", "")),
+        1 => out.push(Item::new("G", "z")),
+        2 => out.push(Item::new("LP", "")),
+        3 => out.push(Item::new("L", &format!("q{}", *uniq))),
+        4 => {
+            out.push(Item::new("O", ""));
+            let n = rng.below(4);
+            for _ in 0..n {
+                audit_tree_stmt(rng, depth + 1, max_depth, budget, out, uniq);
+            }
+            out.push(Item::new("C", ""));
+        }
+        5 => {
+            out.push(Item::new("I", ""));
+            audit_tree_stmt(rng, depth + 1, max_depth, budget, out, uniq);
+            if rng.chance(55) {
+                out.push(Item::new("E", ""));
+                audit_tree_stmt(rng, depth + 1, max_depth, budget, out, uniq);
+            }
+        }
+        6 => out.push(Item::new("M", "")),
+        _ => out.push(Item::new("V", &format!("w{}", *uniq))),
+    }
+}
+
+fn audit_case(prop: &str, rng: &mut Rng) -> (Vec<Item>, Vec<String>, Vec<String>, flat::Layout) {
+    let nfns = [1, 2, 2, 3][rng.below(4)];
+    let deep = rng.chance(40);
+    let mut items: Vec<Item> = Vec::new();
+    let mut uniq = 0usize;
+    for f in 0..nfns {
+        if f > 0 {
+            items.push(Item::new("F", "x"));
+        }
+        let with_result = prop != "C06" && rng.chance(40);
+        let mut part: Vec<Item> = match prop {
+            "C06" => {
+                let mut out = Vec::new();
+                let mut budget = rng.range(2, 30 / nfns);
+                let n = rng.range(1, 5);
+                for _ in 0..n {
+                    audit_tree_stmt(rng, 0, if deep { 8 } else { 4 }, &mut budget, &mut out, &mut uniq);
+                }
+                // the label the gotos target ends the body; without gotos the last statement is whatever it is
+                if out.iter().any(|x| x.kind == "G") {
+                    out.push(Item::new("L", "z"));
+                }
+                normalise(out)
+            }
+            // (at most one label-valid body of up to ~50 items per module: TLC's validation time grows fast with the length)
+            "C05" if f == 0 && rng.chance(60) => label_valid_body(rng),
+            _ => {
+                let p = audit_profile(prop, deep);
+                let len = rng.range(2, p.max_len / nfns);
+                body_from(&p, len, rng, with_result)
+            }
+        };
+        if with_result {
+            // `return:` is the last statement of the body, followed by the result expression
+            part.retain(|x| !(x.kind == "L" && x.name == "return"));
+            part.push(Item::new("L", "return"));
+            let declared: Vec<String> = part.iter().filter(|x| x.kind == "V" && prop == "C05").map(|x| x.name.clone()).collect();
+            let n = if !declared.is_empty() && rng.chance(70) { declared[rng.below(declared.len())].clone() } else { "x".to_string() };
+            part.push(Item::new("RV", &n));
+        }
+        items.extend(part);
+    }
+    let mut consts: Vec<String> = Vec::new();
+    let mut params: Vec<String> = Vec::new();
+    if prop == "C05" {
+        if rng.chance(50) {
+            consts.push(NAMES[rng.below(3)].to_string());
+        }
+        if rng.chance(40) {
+            params.push(NAMES[rng.below(3)].to_string());
+            if rng.chance(25) {
+                params.push(NAMES[rng.below(3)].to_string());
+            }
+        }
+    }
+    let mut lay = flat::Layout::default();
+    lay.comments = rng.chance(35);
+    lay.no_final_newline = rng.chance(35);
+    // (the trace specification of C05 knows the parameters of the configuration only)
+    lay.pparam = rng.chance(30) && prop != "C05";
+    lay.consts_after = rng.chance(50);
+    // declaration forms `var n: i32 = 0;` / `var n: i32;` / `var n = 0i32;` (drawn last: a new draw)
+    let var_form = rng.below(3) as u8;
+    if prop == "C04" && rng.chance(35) {
+        // labels named like the variable and like the function (label names are a namespace of their own)
+        lay.rename = vec![("a".to_string(), "x".to_string()), ("b".to_string(), "f".to_string()),
+                          ("c".to_string(), "g1".to_string())];
+    }
+    if prop != "C04" {
+        lay.var_form = var_form;
+    }
+    (items, consts, params, lay)
+}
+
+/// Blocks nested `d` deep (5..11), declarations / labels on the way in, gotos and uses at the bottom, labels (the
+/// targets of the gotos) and uses on every level on the way out: scope lookups through more than eight layers.
+fn tower_body(prop: &str, rng: &mut Rng) -> Vec<Item> {
+    let d = rng.range(5, 11);
+    let names = if prop == "C04" { 4 } else { 3 };
+    let mut items: Vec<Item> = Vec::new();
+    let mut fresh = 0;
+    for _ in 0..d {
+        if prop == "C05" && rng.chance(50) {
+            items.push(Item::new("V", &format!("t{fresh}")));
+            fresh += 1;
+        }
+        if rng.chance(25) {
+            items.push(Item::new("IG", NAMES[rng.below(names)]));
+        }
+        items.push(Item::new(if rng.chance(40) { "IO" } else { "O" }, ""));
+    }
+    for _ in 0..rng.range(1, 4) {
+        items.push(Item::new(if rng.chance(50) { "IG" } else { "G" }, NAMES[rng.below(names)]));
+        if prop == "C05" && fresh > 0 {
+            items.push(Item::new("U", &format!("t{}", rng.below(fresh))));
+        }
+    }
+    for level in 0..d {
+        items.push(Item::new("C", ""));
+        if rng.chance(if level + 1 == d { 90 } else { 25 }) {
+            items.push(Item::new("L", NAMES[rng.below(names)]));
+        }
+        if prop == "C05" && fresh > 0 && rng.chance(30) {
+            items.push(Item::new("U", &format!("t{}", rng.below(fresh))));
+        }
+    }
+    items
 }
